@@ -300,6 +300,11 @@ ALL = ["C%02d" % i for i in range(1, 21)]
 
 # ---- coverage added after the second round of independently written changes (DESIGN 10.6, 12) -------------------
 _ADDED = {
+    "C02": " Extension: aws_hash_table_eq under three value comparators on table pairs in every relation (different hash "
+           "functions, sizes, insertion orders); tables owning aws_strings through aws_hash_callback_string_destroy with "
+           "destruction observed at the allocator; aws_hash_table_is_valid / aws_hash_iter_is_valid after every call; no "
+           "allocation by put/create while the table holds fewer entries than it held before (clear keeps storage); "
+           "aws_hash_combine functional; C-string / aws_string / cursor hashes agree.",
     "C05": " Every chunking also runs through an incremental decoder created without a code point callback (same verdicts, "
            "no code points), and texts with a foreign byte inserted inside a well-formed sequence are included.",
     "C11": " One family parses texts with 1100 sibling containers of each kind (beyond the parser's nesting limit) in one call.",
